@@ -135,6 +135,22 @@ def r_chain(E):
                     backwards = isinstance(loop.iter, ast.Call) and norm(loop.iter.func) == "reversed" or "[::-1]" in norm(loop.iter)
                     ok = bool(backwards)
         if ok is None:
+            # index-table idiom: `last = {key: i for i, key in enumerate(keys)}` (later entries overwrite: the LAST index of
+            # each key) and then the elements whose own index is the table's (`last[key] == i`) are kept, in order
+            for n in ast.walk(fn):
+                if isinstance(n, ast.DictComp) and len(n.generators) == 1 and isinstance(n.generators[0].iter, ast.Call) \
+                        and norm(n.generators[0].iter.func) == "enumerate" and isinstance(n.generators[0].target, ast.Tuple) \
+                        and len(n.generators[0].target.elts) == 2 and not n.generators[0].ifs:
+                    idx = norm(n.generators[0].target.elts[0])
+                    par = getattr(n, "_parent", None)
+                    tname = par.targets[0].id if isinstance(par, ast.Assign) and isinstance(par.targets[0], ast.Name) else None
+                    if norm(n.value) == idx and tname:
+                        cmp_ok = any(isinstance(c, ast.Compare) and len(c.ops) == 1 and isinstance(c.ops[0], ast.Eq)
+                                     and any(isinstance(x, ast.Subscript) and norm(x.value) == tname for x in (c.left, c.comparators[0]))
+                                     for c in ast.walk(fn))
+                        if cmp_ok:
+                            ok = True
+        if ok is None:
             # dict idiom: `{x.id: x for x in chain}.values()` / dict.fromkeys(chain) keep each key at the position of its
             # FIRST insertion (the object kept may be the last one, its place in the order is the first one's) —
             # unless the chain is walked backwards and the result reversed again
@@ -700,6 +716,9 @@ def r_cumul(E):
                 ts = list(n.ifs)
             elif isinstance(n, ast.IfExp):
                 ts = [n.test]
+            elif isinstance(n, ast.Call) and isinstance(n.func, ast.Name) and n.func.id in ("filter", "filterfalse") \
+                    and n.args and isinstance(n.args[0], ast.Lambda):
+                ts = [n.args[0].body if n.func.id == "filter" else ast.UnaryOp(op=ast.Not(), operand=n.args[0].body)]
             for t in ts:
                 # a predicate handed over as a lambda and applied on the spot reads as its body
                 while isinstance(t, ast.Call) and isinstance(t.func, ast.Lambda) and not t.keywords \
@@ -992,6 +1011,9 @@ class _ParenInterp:
             saved = self.env
             self.env = self.globals
             for st in module_tree.body:
+                if isinstance(st, ast.FunctionDef):
+                    self.globals[st.name] = st
+                    continue
                 if isinstance(st, (ast.Assign, ast.For, ast.AugAssign)) or (isinstance(st, ast.Expr) and isinstance(st.value, ast.Call)):
                     try:
                         self.block([st])
@@ -1223,8 +1245,9 @@ class _ParenInterp:
                 if any(not dict.__contains__(sub.env, n_) for n_ in names):
                     raise _Undecided("closure called with missing arguments")
                 return sub.ev(node.body)
-            if isinstance(f, ast.Name) and self.env.has(f.id) and isinstance(self.env.lookup(f.id), ast.FunctionDef):
-                g = self.env.lookup(f.id)
+            if isinstance(callee, ast.FunctionDef) or (
+                    isinstance(f, ast.Name) and self.env.has(f.id) and isinstance(self.env.lookup(f.id), ast.FunctionDef)):
+                g = callee if isinstance(callee, ast.FunctionDef) else self.env.lookup(f.id)
                 sub = _ParenInterp(g, None, None, None)
                 sub.globals = self.globals
                 sub.env = _Env(self.env)
@@ -1583,8 +1606,13 @@ def r_json_load(E):
             res.samples.append({"conversion": nm, "verdict": "unconditional within its kind branch"})
     # object creation reads the sections after the upgrade handlers ran
     from ..astutil import nodes_through_helpers
-    is_upg = lambda n: isinstance(n, ast.For) and any(
-        isinstance(x, ast.Name) and x.id == "VERSION_UPGRADE_HANDLERS" for x in ast.walk(n))
+    def is_upg(n):
+        # the loop over the versions — or the same fold written with reduce(lambda d, v: HANDLERS[v](d), range(…), d)
+        mentions = lambda z: any(isinstance(x, ast.Name) and x.id == "VERSION_UPGRADE_HANDLERS" for x in ast.walk(z))
+        if isinstance(n, ast.For) and mentions(n):
+            return True
+        return isinstance(n, (ast.Assign, ast.Expr)) and isinstance(n.value, ast.Call) \
+            and norm(n.value.func) in ("reduce", "functools.reduce") and mentions(n)
     # (inside an extracted function the loop is positioned at the call that reaches it)
     upg = next((n for n in nodes_through_helpers(fn, find_function=pm.function_finder(rel), want=is_upg, depth=2)
                 if is_upg(n)), None)
